@@ -69,20 +69,22 @@ theorem genericIdentical_eq (T t : GoType) (h : genericIdentical T t = true) : T
 /-! ### zero values -/
 
 set_option linter.unusedSimpArgs false in
-theorem zeroOf_hasType_all : ∀ (T : GoType), GoVal.hasType T (zeroOf T) = true := by
-  refine zeroOf.induct (motive_1 := fun T => GoVal.hasType T (zeroOf T) = true)
-    (motive_2 := fun fs => GoVal.fieldsHaveType fs (zeroFields fs) = true)
+/-- the zero value of a type is a value of it, whatever the (positive) bound on uints -/
+theorem zeroOf_hasType_all (ub : Int) (hub : 0 < ub) : ∀ (T : GoType), GoVal.hasTypeB ub T (zeroOf T) = true := by
+  refine zeroOf.induct (motive_1 := fun T => GoVal.hasTypeB ub T (zeroOf T) = true)
+    (motive_2 := fun fs => GoVal.fieldsHaveTypeB ub fs (zeroFields fs) = true)
     ?_ ?_ ?_ ?_ ?_ ?_ ?_ ?_ ?_ ?_ ?_ ?_ ?_ ?_
   all_goals first
-    | (simp [zeroOf, GoVal.hasType]; done)
-    | (intro t; simp [zeroOf, GoVal.hasType]; done)
+    | (simp [zeroOf, GoVal.hasTypeB]; done)
+    | (simp [zeroOf, GoVal.hasTypeB]; exact hub)
+    | (intro t; simp [zeroOf, GoVal.hasTypeB]; done)
     | skip
-  · simp [zeroFields, GoVal.fieldsHaveType]
+  · simp [zeroFields, GoVal.fieldsHaveTypeB]
   · intro goName tagName dash omitempty inline embedded type fs ih1 ih2
-    simp [zeroFields, GoVal.fieldsHaveType, ih1, ih2]
+    simp [zeroFields, GoVal.fieldsHaveTypeB, ih1, ih2]
 
 theorem zeroOf_reads (T : GoType) : ∃ x, reflectV T (zeroOf T) = some x := by
-  have := reflectV_total (zeroOf T) T (zeroOf_hasType_all T)
+  have := reflectV_total 1 (by decide) (zeroOf T) T (zeroOf_hasType_all 1 (by decide) T)
   exact Option.isSome_iff_exists.1 this
 
 theorem zeroOf_empty (T : GoType) (h : T.isStruct = false) : (zeroOf T).isEmptyValue = true := by
